@@ -3,7 +3,7 @@ use cbor_event::de::Deserializer;
 use cbor_event::se::Serializer;
 use crate::{BootstrapWitness, BootstrapWitnesses, CborSetType, DeserializeError};
 use crate::protocol_types::Deserialize;
-use crate::serialization::utils::skip_set_tag;
+use crate::serialization::utils::{is_break_tag, skip_set_tag};
 
 impl cbor_event::se::Serialize for BootstrapWitnesses {
     fn serialize<'se, W: Write>(
@@ -35,8 +35,7 @@ impl Deserialize for BootstrapWitnesses {
                 cbor_event::Len::Len(n) => arr.len() < n as usize,
                 cbor_event::Len::Indefinite => true,
             } {
-                if raw.cbor_type()? == cbor_event::Type::Special {
-                    assert_eq!(raw.special()?, cbor_event::Special::Break);
+                if is_break_tag(raw, "BootstrapWitnesses")? {
                     break;
                 }
                 arr.push(BootstrapWitness::deserialize(raw)?);
